@@ -545,6 +545,98 @@ def context_checks(ctx, drv):
                               observed=a, model=b, stream=case["stream"] + "-correspondence", no_failing_input=True)
 
 
+
+# ---------------------------------------------------------------------------------------------------------------
+# _populate_class_variables: the live tables and synthetic html5 tables against the model BS.Entities.populate*
+# ---------------------------------------------------------------------------------------------------------------
+_PARTICLE = re.compile(r"(.)\(\?!\[(.+)\]\)", re.S)
+
+
+def canonical_tables(cls):
+    """everything _populate_class_variables left on `cls`, in the driver's canonical rendering"""
+    def L(x):
+        return tok(x)
+    parts = []
+    for x in cls.CHARACTER_TO_HTML_ENTITY_WITH_AMPERSAND_RE.pattern[1:-1].split("|"):
+        m = _PARTICLE.fullmatch(x)
+        key, la = (m.group(1), m.group(2)) if m else (x, "")
+        parts.append(([ord(c) for c in key], sorted({ord(c) for c in la})))
+    parts.sort()
+    pstr = ";".join(",".join(map(str, k)) + "|" + (",".join(map(str, la)) or "-") for k, la in parts)
+    plain = sorted(x for x in cls.CHARACTER_TO_HTML_ENTITY_RE.pattern[1:-1].split("|") if x != "")  # "()" when the table is empty
+    amp_minus = sorted(x for x in cls.CHARACTER_TO_HTML_ENTITY_WITH_AMPERSAND_RE.pattern[1:-1].split("|") if x != "&")
+    ustr = ";".join(L(k) + "=" + L(v) for k, v in sorted(cls.CHARACTER_TO_HTML_ENTITY.items(), key=lambda kv: [ord(c) for c in kv[0]]))
+    nstr = ";".join(L(k) + "=" + L(v) for k, v in sorted(cls.HTML_ENTITY_TO_CHARACTER.items(), key=lambda kv: [ord(c) for c in kv[0]]))
+    so = getattr(cls, "SEMICOLON_OPTIONAL_ENTITY_RE", None)
+    legacy = sorted(set(so.pattern.split("|")) - {""}) if so is not None else []
+    lstr = ";".join(L(x) for x in legacy)
+    return f"P {pstr} U {ustr} N {nstr} L {lstr}", plain == amp_minus
+
+
+def synthetic_tables(rng, count):
+    chars = ["<", ">", "é", "ü", "≧", "≧̸", "≧⃒", "<⃒", ">⃒", "=⃥", "fj", "a", "|", "≪", "≪̸", "≪⃒", "\U0001d538", "∾̳", "ǵ",
+             "\xa0", "&"]
+    names = ["a", "b", "ab", "lt", "gt", "LT", "amp", "x1", "nvlt", "gE", "ngE", "ngeqq", "eacute", "Eacute", "z9", "Aopf", "bne", "fjlig", "nbsp"]
+    for _ in range(count):
+        k = rng.randrange(1, 10)
+        tbl = {}
+        for _ in range(k):
+            n = rng.choice(names)
+            ch = rng.choice(chars)
+            form = rng.randrange(3)
+            if form in (0, 2):
+                tbl[n + ";"] = ch
+            if form in (1, 2):
+                tbl[n] = ch if rng.random() < 0.9 else rng.choice(chars)
+        cp = {}
+        for _ in range(rng.randrange(0, 4)):
+            c = rng.choice([c for c in chars if len(c) == 1] + ["〈", "x"])
+            cp[ord(c)] = rng.choice(names)
+        yield tbl, cp
+
+
+def populate_checks(ctx, drv):
+    import bs4.dammit as D
+    from unittest import mock
+    E = _E()
+    lines, impl, cases = ["c09 populate-live"], [], [{"op": "populate", "table": "live"}]
+    real, same = canonical_tables(E)
+    impl.append(real)
+    if not same:
+        ctx.violation("CHARACTER_TO_HTML_ENTITY_WITH_AMPERSAND_RE is not CHARACTER_TO_HTML_ENTITY_RE plus '&'", case=cases[0], stream="populate")
+    for tbl, cp in synthetic_tables(ctx.rng("populate"), ctx.n(300, 3000)):
+        case = {"op": "populate", "html5": {k: tok(v) for k, v in tbl.items()}, "codepoint2name": cp}
+        Tmp = type("Tmp", (E,), {})
+        try:
+            with mock.patch.object(D, "html5", tbl), mock.patch.object(D, "codepoint2name", cp):
+                Tmp._populate_class_variables()
+            real, same = canonical_tables(Tmp)
+        except Exception as e:
+            real, same = "exc:" + type(e).__name__, True
+        items = "/".join(f"{tok(k)}:{tok(v)}" for k, v in sorted(tbl.items())) or "-"
+        cpl = "/".join(f"{k}:{tok(v)}" for k, v in cp.items()) or "-"
+        lines.append(f"c09 populate {items} {cpl}")
+        impl.append(real)
+        cases.append(case)
+        if not same:
+            ctx.violation("CHARACTER_TO_HTML_ENTITY_WITH_AMPERSAND_RE is not CHARACTER_TO_HTML_ENTITY_RE plus '&'", case=case, stream="populate")
+        # by-construction facts, directly on the real result: every alternative has a name; alternatives mutually exclusive
+        if not real.startswith("exc:"):
+            keys = [uncps(p.split("|")[0]) for p in real.split(" ")[1].split(";") if p]
+            for k in keys:
+                if k != "&" and k not in Tmp.CHARACTER_TO_HTML_ENTITY:  # '&' is added to the alternation separately (dammit.py:227)
+                    ctx.violation("an alternative of the generated regex has no name in CHARACTER_TO_HTML_ENTITY", case=case | {"key": tok(k)}, stream="populate")
+    rep = drv.ask(lines)
+    for l, a, b, c in zip(lines, impl, rep, cases):
+        ctx.case(("populate", l[:200]))
+        ctx.count("stream:populate")
+        if a != b:
+            ctx.corr_disagreements += 1
+            sec = [n for n, x, y in zip("PUNL", a.split(" ")[1::2], b.split(" ")[1::2]) if x != y] if not a.startswith("exc") else ["exception"]
+            ctx.violation("model and implementation disagree (_populate_class_variables): sections " + ",".join(sec), case=c | {"line": l[:300]},
+                          observed=a[:2000], model=b[:2000], stream="populate-correspondence", no_failing_input=True)
+
+
 # ---------------------------------------------------------------------------------------------------------------
 def hash_seed_digest(seed):
     """substitute_html/html5 over all keys and their neighbours, in a fresh interpreter with the given PYTHONHASHSEED"""
@@ -637,6 +729,8 @@ def run(ctx: Ctx):
     formatter_and_dict_checks(ctx, drv)
     # --- the same substitutions through Tag.decode(): every parent name, custom cdata_containing_tags, histories
     context_checks(ctx, drv)
+    # --- _populate_class_variables against its model: the live tables and synthetic html5 tables
+    populate_checks(ctx, drv)
     # --- the order of the alternation (hash seed)
     seeds = (0, 1, 2, 3, 5, 8, 13, 12345)
     with ThreadPoolExecutor(max_workers=8) as ex:
